@@ -926,7 +926,7 @@ func genC13(g *G) {
 				}
 			}
 		}
-		for i := 0; i < g.Count(250, 8000); i++ {
+		for i := 0; i < g.Count(250, 5000); i++ {
 			n := 3 + g.Intn(4)
 			evs := []string{}
 			for j := 0; j < n; j++ {
